@@ -77,6 +77,41 @@ def ob_pointload(canary=False):
 
 # ---------------------------------------------------------------- exhaustive: exclusive element selection
 
+def ob_load_none(et):
+    """a node selection that bounds no element of the loaded dimension (a single node, two opposite corners, interior nodes): the load contributes nothing --
+    no exception, zero Neumann vector -- for line, surface, volume and pressure loads; a later valid load is unaffected."""
+    mesh = _mesh(et)
+    dim = mesh.dim
+    co = np.asarray(mesh.coord)
+    corners = [int(np.argmin(np.abs(co - np.array(p_)).sum(1))) for p_ in ([0, 0, 0], [L, H, D if dim == 3 else 0])]
+    n = 0
+    for sel_name, sel in (("single node", corners[:1]), ("two opposite corners", corners)):
+        for kind in ("line", "surf", "volume", "pressure"):
+            if kind == "volume" and dim == 2:
+                pass
+            simu = _simu(mesh, 0.7)
+            unk = ["x", "y", "z"][:dim]
+            try:
+                if kind == "line":
+                    simu.add_lineLoad(np.array(sel), [1.0] * dim, unk)
+                elif kind == "surf":
+                    simu.add_surfLoad(np.array(sel), [1.0] * dim, unk)
+                elif kind == "volume":
+                    simu.add_volumeLoad(np.array(sel), [1.0] * dim, unk)
+                else:
+                    simu.add_pressureLoad(np.array(sel), 2.0)
+                F = simu.Bc_vector_Neumann()
+                F = np.asarray(F.todense()).ravel() if hasattr(F, "todense") else np.asarray(F).ravel()
+            except Exception as ex:
+                raise Refuted(f"{et}: a {kind} load on a selection that bounds no element ({sel_name}: nodes {sel}) raises {type(ex).__name__}: {ex} instead of contributing nothing",
+                              cex=dict(elemType=et, load=kind, nodes=sel), signature=f"load_none:{kind}", replay=dict(confirmed=True, error=str(ex)[:200]))
+            n += 1
+            if np.abs(F).max(initial=0.0) != 0.0:
+                raise Refuted(f"{et}: a {kind} load on nodes {sel} that bound no element contributes {np.abs(F).max():.3e}", cex=dict(elemType=et, load=kind, nodes=sel),
+                              signature=f"load_none:{kind}:value", replay=dict(confirmed=True))
+    return Verdict(DISCHARGED, backend="native run", sub=n)
+
+
 def _beam_lineload(dim, timo, et, inclined, form, unknown, nL=3):
     import contextlib, io
     from EasyFEA import Models, Simulations, Mesher, ElemType
@@ -417,6 +452,9 @@ def build(tier, seed):
                               ("EasyFEA/Simulations/_beam.py::Beam.add_lineLoad", "EasyFEA/FEM/Elems/_beam.py::_Euler_Bernoulli.Get_beam_N_e_pg"),
                               bound="one 3-element beam, SEG2 and SEG3, constant / linear function / linear nodal array, every unknown", timeout=600,
                               clause="nodal forces and couples of a line load on a beam: resultant == integral of the density along the global direction of the unknown; moment about the origin == moment of the density"))
+    for et in ("TRI3", "QUAD8", "TETRA4", "HEXA8"):
+        obs.append(Ob(f"C09.load.none.{et}", ob_load_none, (et,), "X", (f"{SP}::_Simu._Bc_Add_Neumann", f"{SP}::_Simu.__Bc_Integration_Dim"), bound="one gmsh box mesh, two selections x four load kinds",
+                      clause="loads on nodes that do not bound any element of the loaded dimension contribute nothing (no exception, zero vector)", timeout=300))
     obs.append(Ob("canary.pointload", ob_pointload, (True,), "P", expect=REFUTED))
     functions = {q: extract.get(SP, f"_Simu.{q}").describe() for q in ("__Bc_Integration_Dim", "__Bc_pointLoad", "__Bc_pressureload", "add_surfLoad", "add_lineLoad", "add_volumeLoad")}
     functions["Get_Elements_Nodes"] = extract.get(GP, "_GroupElem.Get_Elements_Nodes").describe()
